@@ -33,6 +33,8 @@ func c14Alphabet() [][]string {
 		{"HINCRBYFLOAT", "a", "f", "0.5"}, {"HINCRBYFLOAT", "a", "g", "-1.25"}, {"HINCRBYFLOAT", "a", "f", "x"},
 		{"HINCRBYFLOAT", "a", "n", "1e21"}, {"HINCRBYFLOAT", "a", "f", "2"},
 		{"DEL", "a"}, {"TYPE", "a"}, {"EXPIRE", "a", "100"}, {"TTL", "a"},
+		// floats at the edges of plain-decimal rendering: every reader must agree on the text of the value
+		{"HSET", "a", "f", "0.00001"}, {"HSET", "a", "n", "-0.00000025"}, {"HSTRLEN", "a", "n"}, {"HINCRBYFLOAT", "a", "f", "1e21"},
 	}
 }
 
@@ -66,7 +68,7 @@ func c14InitStates() [][][]string {
 func c14Universe() Universe {
 	u := defaultUniverse()
 	u.Keys = []string{"a", "b", "c", "d"}
-	u.Vals = append(append([]string{}, u.Vals...), "+Inf", "NaN", "1.5e-07", "0.5", "100", "-7", "2.25", "v1", "v2", "\x00", "\r\n")
+	u.Vals = append(append([]string{}, u.Vals...), "+Inf", "NaN", "1.5e-07", "0.00001", "-0.00000025", "0.5", "100", "-7", "2.25", "v1", "v2", "\x00", "\r\n")
 	u.Fields = []string{"f1", "f2", "f3", "f4", "", "f\r\n", "nul\x00", "ünï", strings.Repeat("F", 1024)}
 	u.Ints = []string{"0", "1", "-1", "2", "-2", "3", "-3", "5", "-5", "10", "-10", "100", "-100", "x", "1.5", "",
 		"9223372036854775807", "-9223372036854775808", "9223372036854775808"}
